@@ -51,6 +51,7 @@ func slotScenario(akind, aclose, stale string, early bool) *vsched.Scenario {
 	sc.Body = func() {
 		gotB, staleRes, sameSlot, sameFd, bCloseRet = nil, "", false, false, false
 		A, B = nil, nil
+		bReady.Reset()
 		netpoll.VerifReset(1)
 		a1, b1 = vsyscall.HSocketpair(0)
 		vsyscall.Adopt(a1)
@@ -179,7 +180,7 @@ func slotScenario(akind, aclose, stale string, early bool) *vsched.Scenario {
 			}
 			openB()
 		} else {
-			vsched.WaitCond("B-open", func() bool { return B != nil })
+			vsched.WaitCond("B-open", func() bool { return bReady.IsSet() }) // not "B != nil": the opener publishes B with the flag
 		}
 		bReady.Acquire()
 		b := B
